@@ -1,6 +1,7 @@
 import GradysProofs.Lemmas.ELHist
 import GradysProofs.Lemmas.SimStep
 import GradysModel.Heap
+import GradysProofs.Lemmas.HeapRefine
 /-
   C03 — events due at the same instant run in the order they were requested (FIFO).
   `seq` is the request order (`WInv.acc_sorted`: accepted requests carry strictly increasing `seq`).
@@ -100,3 +101,78 @@ theorem C03_ts_only_heap_not_fifo : drain ltTs (pushAll ltTs 4) 4 = [0, 2, 1, 3]
 theorem C03_key_heap_fifo_8 : drain ltKey (pushAll ltKey 8) 8 = [0, 1, 2, 3, 4, 5, 6, 7] := by decide
 
 end C03
+
+/-! ### the port of `heapq.py` refines the sorted-list queue
+
+  This removes "the heap behaves like the stably sorted list" from the trusted base: the queue of
+  `GradysModel/Queue.lean` (on which C01–C03 are proved) and the real `heapq` algorithm
+  (`GradysModel/Heap.lean`) are observationally equal under the repaired (ts, seq) `Event.__lt__`.
+  Lemmas: `GradysProofs/Lemmas/HeapRefine.lean`. -/
+namespace C03
+open Heap
+variable {α K : Type}
+
+/-- the order hypothesis of the two theorems below, `StrictWeakOn lt P` (irreflexive, transitive and
+    `¬ >` transitive on the elements satisfying `P`), holds for every `lt` that is a strict total
+    order on the elements present: irreflexive, transitive, total on distinct elements -/
+theorem C03_strict_total_is_strict_weak {lt : α → α → Bool} {P : α → Prop}
+    (irrefl : ∀ a, P a → lt a a = false)
+    (trans : ∀ a b c, P a → P b → P c → lt a b = true → lt b c = true → lt a c = true)
+    (total : ∀ a b, P a → P b → a ≠ b → lt a b = true ∨ lt b a = true) : StrictWeakOn lt P :=
+  StrictWeakOn.of_total irrefl trans total
+
+/-- `heappush`, when `lt` is a strict weak order on the elements present (`P` holds of the heap's
+    elements and of the new one): the heap invariant `∀ i > 0, ¬ a[i] < a[(i-1)/2]` is preserved and
+    the contents are the old contents plus the new element -/
+theorem C03_heappush_valid_perm {lt : α → α → Bool} {P : α → Prop} (sw : StrictWeakOn lt P)
+    {h : Array α} (hall : ∀ y ∈ h.toList, P y) (hinv : HeapInv lt h) (x : α) (hx : P x) :
+    HeapInv lt (heappush lt h x) ∧ (heappush lt h x).toList.Perm (x :: h.toList) :=
+  heappush_spec_on sw (AllP.of_mem hall) hinv x hx
+
+/-- `heappop`: `none` on the empty heap; on a non-empty valid heap it returns an element `e` than
+    which no element of the heap is smaller, leaves a valid heap, and old contents = `e` + new contents -/
+theorem C03_heappop_min_valid_perm {lt : α → α → Bool} {P : α → Prop} (sw : StrictWeakOn lt P)
+    {h : Array α} (hall : ∀ y ∈ h.toList, P y) (hinv : HeapInv lt h) :
+    (h.size = 0 → heappop lt h = none) ∧
+    (0 < h.size → ∃ e h', heappop lt h = some (e, h') ∧ (∀ y ∈ h.toList, lt y e = false) ∧
+      HeapInv lt h' ∧ h.toList.Perm (e :: h'.toList)) := by
+  refine ⟨heappop_empty lt h, fun hne => ?_⟩
+  obtain ⟨h', hp, hinv', hperm⟩ := heappop_spec_on sw (AllP.of_mem hall) hinv hne
+  exact ⟨_, h', hp, heappop_min_on sw (AllP.of_mem hall) hinv hp, hinv', hperm⟩
+
+/-- fuel: the loops of the port stop by themselves within the fuel it passes (the array size) —
+    the results are those of *any* fuel `≥ len - 1`, for every order and every array -/
+theorem C03_heapq_fuel_suffices (lt : α → α → Bool) (h : Array α) (x : α) :
+    (∀ fuel, h.size ≤ fuel → siftdown lt (h.push x) 0 h.size x fuel = heappush lt h x) ∧
+    (∀ f1 f2, h.size - 1 ≤ f1 → h.size - 1 ≤ f2 → heappopFuel lt h f1 f2 = heappop lt h) :=
+  ⟨fun fuel hf => heappush_fuel lt h x fuel hf, fun f1 f2 h1 h2 => heappop_fuel lt h f1 f2 h1 h2⟩
+
+/-- push step of the refinement (`Rel h q`: `h` a valid (ts, seq)-heap, contents a permutation of
+    `q`, `q` strictly sorted by (ts, seq)): if the new sequence number exceeds all queued ones,
+    `heappush` is stable insertion -/
+theorem C03_heapq_push_refines {h : Array (Ev K)} {q : List (Ev K)} (r : Rel h q) (e : Ev K)
+    (hseq : ∀ x ∈ q, x.seq < e.seq) : Rel (heappush keyLtb h e) (insertEv e q) :=
+  r.push e hseq
+
+/-- pop step of the refinement: the heap pops exactly the head of the sorted list -/
+theorem C03_heapq_pop_refines {h : Array (Ev K)} {e : Ev K} {rest : List (Ev K)}
+    (r : Rel h (e :: rest)) : ∃ h', heappop keyLtb h = some (e, h') ∧ Rel h' rest :=
+  r.pop
+
+/-- for every history of the public `EventLoop` API, the event loop on the real heap (`HEL`:
+    `heappush`/`heappop`/`heap[0]`/`len(heap)`) and the sorted-list loop `EL` of `Queue.lean` return
+    the same outputs — the same events in the same order, the same errors, lengths and clock —
+    and end in related states -/
+theorem C03_heapq_refines_sorted_queue (ops : List (ELOp K)) :
+    ((HEL.empty : HEL K).run ops).2 = ((EL.empty : EL K).run ops).2 ∧
+    HRel ((HEL.empty : HEL K).run ops).1 ((EL.empty : EL K).run ops).1 :=
+  HRel.empty.run ops
+
+/-- non-vacuity: the heap loop really runs; same-time requests pop FIFO, earlier times first -/
+example : (((HEL.empty : HEL Nat).run [.schedule 2 0, .schedule 1 1, .schedule 1 2, .schedule 1 3,
+    .pop, .pop, .schedule 1 4, .pop, .pop, .pop]).2.filterMap
+      (fun o => match o with | .ev (some e) => some e.kind | _ => none))
+    = [1, 2, 3, 4, 0] := by decide
+
+end C03
+
